@@ -325,7 +325,11 @@ class Runner(object):
                          else "load_clear_installed"] += 1
             assert ("loadFailed",) not in b.rec, "load failed: %s" % getattr(self.tok[1], "last_exc", "")[-600:]
             self.ran_since_reset = []
-            self._emit({"op": "load", "clear": o[1]}, "state", self._state())
+            ev = L.canon_real_events(b, list(b.rec), self.arg2idx)
+            del b.rec[:]
+            for e in ev:
+                self.cov["load_ev_" + e[0]] += 1
+            self._emit({"op": "load", "clear": o[1]}, "apply", (ev, self._state()))
             self._monitor_table("load")
             sv = _spec_self_ver(self.specs[self.cur])
             self.cov["load_enabled_gt_self" if b.obj.getCodeVersion() > sv else "load_enabled_le_self"] += 1
@@ -600,6 +604,14 @@ def _directed(argc):
         st = {"enabled": 0, "tableVer": 0, "lastApplied": 1, "commit": 6, "log": log,
               "waiting": [[3, [[1, 81], [2, 82]]], [6, [[1, 83]]]]}
         out.append(({"N": new, "O": old}, [["node", name, st], ["apply"], ["apply"]], "mem"))
+    # D61: subscribers on indices the dump covers (2, 4: answered LEADER_CHANGED in index order) and beyond it (5: kept);
+    # own dump file (installed), received snapshot already applied (skipped: nothing answered), fresh node (installed)
+    log = [[["noop"], 1, 0], [["reg", 1, 9301], 2, 1], [["ver", 1], 3, 1], [["reg", 2, 9302], 4, 1]]
+    st = {"enabled": 0, "tableVer": 0, "lastApplied": 1, "commit": 4, "log": log, "waiting": []}
+    subs = [["sub", 4, 1, 91], ["sub", 2, 1, 92], ["sub", 5, 1, 93], ["sub", 4, 2, 94]]
+    for tail in ([["load", False]], [["load", True]], [["fresh", "N"]] + subs + [["load", True]],
+                 [["fresh", "O"]] + subs + [["load", False]]):
+        out.append(({"N": new, "O": old}, [["node", "N", st], ["apply"], ["dump"]] + subs + tail + [["apply"]], "mem"))
     # dump after the switch, reload on same and on older code, in every mode
     for mode in ("mem", "file", "user"):
         log = [[["noop"], 1, 0], [["reg", 1, 9101], 2, 1], [["ver", 1], 3, 1], [["reg", 2, 9102], 4, 1]]
@@ -648,7 +660,9 @@ def run(ctx):
         for kind, specs, script, mode in todo:
             seed = rng.randrange(1 << 30)
             if mode != "mem" and kind == "handler" and rng.random() < 0.5:
-                script = script + [["dump"], ["compact"], ["apply"]] + ([["load", rng.random() < 0.5], ["apply"]] if rng.random() < 0.7 else [])
+                subs = [["sub", rng.randint(1, 12), rng.choice([1, 2]), 700 + j] for j in range(rng.randint(0, 3))]
+                script = script + [["dump"], ["compact"], ["apply"]] + \
+                    (subs + [["load", rng.random() < 0.5], ["apply"]] if rng.random() < 0.7 else [])
             R = _run_script(ctx, ns, specs, script, mode, seed)
             runs.append((R, specs, script, mode, seed, kind))
             cases += 1
@@ -695,7 +709,7 @@ def run(ctx):
     floors = ["ev_ran", "ev_wrongVer", "ev_verChanged", "ev_blocked", "cb_ok", "cb_discarded", "setver_tooHigh",
               "setver_tooLow", "setver_queued", "dump_made", "dump_none", "op_load", "op_compact", "mode_file", "mode_user",
               "m1_checked", "m3_checked", "m4_checked", "follower_from_dump", "follower_from_log", "load_after_switch",
-              "load_enabled_gt_self", "load_clear_kept", "load_clear_installed"] + (["ev_unknownId", "cb_keyError"] if INCLUDE_UNKNOWN_IDS else [])
+              "load_enabled_gt_self", "load_clear_kept", "load_clear_installed", "load_ev_cbOpen"] + (["ev_unknownId", "cb_keyError"] if INCLUDE_UNKNOWN_IDS else [])
     missed = [f for f in floors if not cov.get(f)]
     if missed and not disagreements and not violations:
         res["inconclusive"] = "coverage floor missed: %s" % missed
